@@ -8,7 +8,7 @@ CONSTANTS
   SkyInit = 7
   MaxQ = 3
   MaxSeq = 4
-  MaxLevel = 9
+  MaxLevel = 8
 INIT Init
 NEXT Next
 CONSTRAINT Constr
